@@ -23,10 +23,11 @@ def hooks : Hooks where
   flagLoad := fun _ _ => ""
 
 def cfgOfArgs (kv : List (String × String)) : Cfg :=
-  { r := ⟨boolArg kv "shortHeaderIsEOF", boolArg kv "tornDataIsEOF", false⟩,
+  { r := ⟨boolArg kv "shortHeaderIsEOF", boolArg kv "tornDataIsEOF", false, boolArg kv "zeroTailIsEOF"⟩,
     syncFsyncs := boolArg kv "syncFsyncs", closeFsyncs := boolArg kv "closeFsyncs",
     truncatesTornTail := boolArg kv "truncatesTornTail",
-    loadCleansTemp := true, rmTempLocked := true, rmTempFromIndex := true, rmTempCompactor := true }
+    loadCleansTemp := true, rmTempLocked := true, rmTempFromIndex := true, rmTempCompactor := true,
+    restartsZeroHeader := boolArg kv "openCutsZeroTail", sparesMidFileDamage := boolArg kv "openSparesMidFileDamage" }
 
 def run (args : List String) : IO UInt32 := do
   let kv := parseArgs args
